@@ -229,17 +229,18 @@ def parseXkey (s : Str) : Option CKey :=
         else if depth = 0 && fp ≠ [0, 0, 0, 0] then none
         else some (.xkey version depth fp child chain body)
 
-/-- `PrivateKey.from_wif` -/
+def knownWifPrefix (p : Bytes) : Bool := Generated.networks.any fun n => n.wif = p
+
+/-- `PrivateKey.from_wif` (a version byte that belongs to no network is refused: "Unknown WIF version byte") -/
 def parseWif (s : Str) : Option CKey :=
   match b58decodeCheck s with
   | none => none
   | some b =>
+    if !knownWifPrefix (b.take 1) then none else
     if b.length ≠ 33 && b.length ≠ 34 then none else
     if b.length = 34 && b.getLast? ≠ some 1 then none else
     let d := ofBe ((b.drop 1).take 32)
     if d = 0 || d ≥ N then none else some (.priv d (b.length = 34) (b.take 1))
-
-def knownWifPrefix (p : Bytes) : Bool := Generated.networks.any fun n => n.wif = p
 
 def CKey.text : CKey → Option Str
   | .pub _ _ => none
